@@ -26,7 +26,7 @@ type multiModel struct {
 	pumps      []*ssa.Function
 	release    []*ssa.Function // closures created in Acquire that decrement the count
 	lockClass  string
-	handleT    string // type of the handle allocated in Acquire
+	handleT    string  // type of the handle allocated in Acquire
 	R          *Region // Acquire and its helpers
 	gCreate    *Guard  // socket == nil edge of Acquire
 }
